@@ -45,6 +45,55 @@ def _tries(fn_node: ast.FunctionDef) -> list[ast.Try]:
     return [n for n in walk_no_nested(fn_node) if isinstance(n, ast.Try)]
 
 
+def _census_homes(ctx: Ctx, fn) -> list[str]:
+    """the functions of the verified commit that a (possibly new) function belongs to: itself when it is in the census, else the
+    census functions that reach it through new helpers only"""
+    import json
+    import os
+
+    cen = getattr(ctx.repo, "_census_fns", None)
+    if cen is None:
+        here = os.path.dirname(os.path.dirname(os.path.dirname(os.path.abspath(__file__))))
+        data = json.load(open(os.path.join(here, "refdata", "census.json")))["modules"]
+        cen = {f"{m}:{q}" for m, d in data.items() for q in d.get("functions", [])}
+        ctx.repo._census_fns = cen  # type: ignore[attr-defined]
+    if fn.fq in cen:
+        return [fn.fq]
+    rs = get_resolver(ctx.repo)
+    homes: set[str] = set()
+    seen = {fn.fq}
+    stack = [fn.fq]
+    while stack:
+        cur = stack.pop()
+        callers = {c for c, sites in rs.sites.items() for s_ in sites for t in s_.targets if t.fq == cur}
+        for c in callers:
+            if c in cen:
+                homes.add(c)
+            elif c not in seen:
+                seen.add(c)
+                stack.append(c)
+    return sorted(homes) or [fn.fq]
+
+
+def _failure_classes(ctx: Ctx) -> set[str]:
+    """exception classes that stand for a failed assembly: every class some statement of the packages raises, their ancestors, and
+    the implicit ones of the operations the pipeline relies on"""
+    got = getattr(ctx.repo, "_failure_classes", None)
+    if got is None:
+        got = {"KeyError", "IndexError", "LookupError", "OSError", "FileNotFoundError", "IOError", "ValueError", "UnicodeDecodeError", "error", "struct.error",
+               "RecursionError", "Exception", "BaseException", "AssertionError", "NotImplementedError"}
+        for f in ctx.repo.all_functions():
+            for n in ast.walk(f.node):
+                if isinstance(n, ast.Raise) and n.exc is not None:
+                    e = n.exc.func if isinstance(n.exc, ast.Call) else n.exc
+                    d = dotted(e)
+                    if d:
+                        got.add(d.split(".")[-1])
+                        got |= set(ancestors(ctx.repo, d.split(".")[-1]))
+        ctx.repo._failure_classes = got  # type: ignore[attr-defined]
+    return got
+
+
 def r1_handler_census(ctx: Ctx) -> None:
     for fn in ctx.repo.all_functions():
         if fn.module.name.startswith("script.") and fn.module.name != "script":
@@ -59,31 +108,79 @@ def r1_handler_census(ctx: Ctx) -> None:
                     ctx.ok(construct, disp)
                     continue
                 key = None
-                for (f, caught), why in RECOVERIES.items():
-                    if f == fn.fq and names is not None and names <= caught:
-                        key = (f, caught)
-                if key is None:
-                    here = [sorted(c) for f, c in RECOVERIES if f == fn.fq]
-                    ctx.fail(construct, "the handler neither re-raises nor returns a failure status and is not a confirmed local recovery: "
-                             "the error it catches is dropped" + (f" (the recovery confirmed in this function catches only {here})" if here else ""))
-                else:
-                    ctx.ok(construct, "confirmed recovery: " + RECOVERIES[key])
+                homes = _census_homes(ctx, fn)
+                for home in homes:
+                    allowed: set[str] = set()
+                    for (f, caught), why in RECOVERIES.items():
+                        if f == home:
+                            allowed |= set(caught)
+                            if names is not None and names <= caught:
+                                key = (f, caught)
+                    # one handler for several confirmed recoveries of the same function (merged except clauses)
+                    if key is None and names is not None and allowed and names <= allowed:
+                        key = next(k for k in RECOVERIES if k[0] == home)
+                if key is not None and not all(any(f == h and names is not None and names <= set().union(*[c for ff, c in RECOVERIES if ff == h]) for f, _c in RECOVERIES) for h in homes):
+                    key = None
+                if key is not None:
+                    ctx.ok(construct, "confirmed recovery: " + RECOVERIES[key] + ("" if fn.fq == key[0] else f" (moved into the new helper {fn.qualname})"))
+                    continue
+                here = [sorted(c) for f, c in RECOVERIES if f == fn.fq]
+                records = [x for st in h.body for x in ast.walk(st) if isinstance(x, (ast.Assign, ast.AugAssign, ast.AnnAssign, ast.Return, ast.Yield))
+                           and not (isinstance(x, ast.Return) and x.value is None)]
+                failure = names is None or bool(names & _failure_classes(ctx))
+                if records and not (isinstance(h.body[-1], ast.Return) and isinstance(h.body[-1].value, ast.Constant) and h.body[-1].value.value in (0, None, True)):
+                    raise AnalysisError(f"{construct}: an unconfirmed handler records the error in a value ({unparse(records[0])[:40]}); whether every caller "
+                                        "turns that value into a failure status is not decided")
+                if not failure:
+                    raise AnalysisError(f"{construct}: an unconfirmed handler for {sorted(names or [])}, which no statement of the pipeline raises as an assembly "
+                                        "failure; not decided")
+                ctx.fail(construct, "the handler neither re-raises nor returns a failure status and is not a confirmed local recovery: "
+                         "the error it catches is dropped" + (f" (the recovery confirmed in this function catches only {here})" if here else ""))
     ctx.floor("handlers", 13)
-    # parse_as_ast: both handlers produce the error that is returned
+    # parse_as_ast: whatever a handler leads to, the ParserResult returned from there carries an error; error=None is returned
+    # only after scanning and parsing both completed
     pa = ctx.repo.func("a816.parse.mzparser", "MZParser.parse_as_ast")
+    g = CFG(pa.node)
+
+    def error_exprs(start: int) -> list[tuple[int, ast.AST | None]]:
+        res = []
+        for rn, lasts in g.values_at_returns(start, "error", labels_excluded=["exc"]).items():
+            r = g.nodes[rn].ast
+            v = r.value if isinstance(r, ast.Return) else None
+            if isinstance(v, ast.Name):
+                defs = [d.value for d in walk_no_nested(pa.node) if isinstance(d, ast.Assign) and unparse(d.targets[0]) == v.id]
+                v = defs[-1] if len(defs) == 1 else v
+            if not (isinstance(v, ast.Call) and call_name(v) == "ParserResult"):
+                raise AnalysisError(f"parse_as_ast: returns `{unparse(v)[:50] if v is not None else None}`, not a ParserResult(...)")
+            e = next((k.value for k in v.keywords if k.arg == "error"), v.args[1] if len(v.args) > 1 else None)
+            if e is None:
+                raise AnalysisError("parse_as_ast: ParserResult(...) without an error field")
+            if isinstance(e, ast.Name) and e.id == "error":
+                for last in lasts:
+                    res.append((rn, last if last is not None else e))
+            else:
+                res.append((rn, e))
+        return res
+
+    n_h = 0
     for t in _tries(pa.node):
         for h in t.handlers:
-            sets = [s for s in h.body if isinstance(s, ast.Assign) and unparse(s.targets[0]) == "error" and unparse(s.value) != "None"]
-            ctx.check(bool(sets), f"parse_as_ast:except {unparse(h.type)}:sets-error", "the handler records an error message")
-    rets = [r for r in walk_no_nested(pa.node) if isinstance(r, ast.Return)]
-    ok = len(rets) == 1 and isinstance(rets[0].value, ast.Call) and any(k.arg == "error" and unparse(k.value) == "error" for k in rets[0].value.keywords)
-    ctx.check(ok, "parse_as_ast:returns-error", "the recorded error is returned in ParserResult.error")
-    none_sets = [s for s in walk_no_nested(pa.node) if isinstance(s, ast.Assign) and unparse(s.targets[0]) == "error" and unparse(s.value) == "None"]
-    g = CFG(pa.node)
-    for s in none_sets:
-        parse_calls = [g.node_containing(c) for c in calls_in(pa.node) if call_name(c) in ("parser.parse", "scanner.scan")]
-        ctx.check(g.dominated_by(g.node_of(s), parse_calls) and all(g.dominated_by(g.node_of(s), [pc]) for pc in parse_calls), "parse_as_ast:error=None-after-parse",
-                  "error is cleared only after scanning and parsing both completed")
+            n_h += 1
+            got = error_exprs(g.node_of(h))
+            ok = bool(got) and all(not (isinstance(e, ast.Constant) and e.value is None) and not (isinstance(e, ast.Name) and e.id == "error") for _rn, e in got)
+            ctx.check(ok, f"parse_as_ast:except {unparse(h.type)}:sets-error", "the result returned after the handler ran carries an error message; found "
+                      f"{[unparse(e)[:40] if e is not None else None for _rn, e in got]}")
+    if n_h == 0:
+        raise AnalysisError("parse_as_ast: no handler found")
+    parse_calls = [g.node_containing(c) for c in calls_in(pa.node) if (call_name(c) or "").endswith((".parse", ".scan"))]
+    if len(parse_calls) < 2:
+        raise AnalysisError("parse_as_ast: scan / parse calls not found")
+    from ..cfg import ENTRY as _ENTRY
+
+    for rn, e in error_exprs(_ENTRY):
+        if isinstance(e, ast.Constant) and e.value is None:
+            ctx.check(all(g.dominated_by(rn, [pc], labels_excluded=["exc"]) for pc in parse_calls), "parse_as_ast:error=None-after-parse",
+                      "a result without error is returned only after scanning and parsing both completed")
 
 
 def r2_entry_point_status(ctx: Ctx) -> None:
@@ -100,7 +197,7 @@ def r2_entry_point_status(ctx: Ctx) -> None:
     for t in _tries(awe.node):
         for h in t.handlers:
             hn = g.node_of(h)
-            reach = g.reachable([hn])
+            reach = g.reachable_with_flags([hn])
             for what, sn in succ_nodes:
                 ctx.count("handler_success_pairs")
                 ctx.check(sn not in reach, f"assemble_with_emitter:except {unparse(h.type)} -> {what}",
@@ -295,8 +392,10 @@ def r6_whole_input_is_parsed(ctx: Ctx) -> None:
             ctx.fail("parse_initial:delegates-to-parse_block", "parse_block stops at a closing brace: at top level a stray `}` would silently end the program")
     sc = ctx.repo.func("a816.parse.scanner", "Scanner.scan")
     loops = [n for n in walk_no_nested(sc.node) if isinstance(n, ast.While)]
-    ok = len(loops) == 1 and unparse(loops[0].test) == "self.pos < len(self.input)"
-    ctx.check(ok, "Scanner.scan:until-end", "the scanner runs until the end of the text")
+    conj = [unparse(v) for v in (loops[0].test.values if len(loops) == 1 and isinstance(loops[0].test, ast.BoolOp) and isinstance(loops[0].test.op, ast.And) else
+                                 ([loops[0].test] if len(loops) == 1 else []))]
+    ok = len(loops) == 1 and "self.pos < len(self.input)" in conj and set(conj) <= {"self.pos < len(self.input)", "self.state is not None"}
+    ctx.check(ok, "Scanner.scan:until-end", f"the scanner runs until the end of the text (or until there is no state function); guard {conj}")
     if loops:
         brk = [s for s in walk_no_nested(loops[0]) if isinstance(s, ast.Break)]
         for b in brk:
